@@ -189,7 +189,8 @@ def generate(rng, opts):
     if r.random() < 0.3:
         events.append(["dropbuilder"])
     return {"initial": r.choice(INITIAL), "resize": r.choice(RESIZE), "twin": [r.choice(INITIAL), r.choice(RESIZE)],
-            "field_mode": r.choice(["fast", "check"]), "via": 1 if r.random() < 0.3 else 0, "events": events}
+            "field_mode": r.choice(["fast", "check"]), "via": 1 if r.random() < 0.3 else 0, "events": events,
+            "clear_inside": p_clear > 0 and r.random() < 0.3}
 
 
 # ================================================================================================ reference model
@@ -570,7 +571,22 @@ def execute(node, case, rec, opts):
             continue
         if k == "clear":
             if model.stack:
-                continue           # only between top-level items (the state of open structures after clear is unspecified)
+                # the state of open structures after clear() is not specified (a list stays open, a record is closed, a
+                # union keeps its current member): without the case's say-so clear only happens between top-level items;
+                # with it the call is made and - like after a refused command - only "nothing crashes, nothing raises an
+                # extraordinary exception, older snapshots stay what they were" is demanded from then on
+                if not case.get("clear_inside") or not strict:
+                    continue
+                try:
+                    b.send(ev)
+                    twin.send(ev)
+                except NodeError as e:
+                    raise Violation("robustness", "clear_raised", {"error": [e.cls, e.msg[:300]]}, at=t)
+                strict = False
+                rec.fault("clear_inside_open_structure")
+                rec.ev(t, "clear_inside", len(model.stack))
+                check_old_snapshots(t, "clear inside an open structure")
+                continue
             try:
                 b.send(ev)
                 twin.send(ev)
@@ -714,7 +730,7 @@ def describe(case):
     if case.get("mode") == "many_types":
         return dict(case)
     return {"initial": case["initial"], "resize": case["resize"], "twin": case["twin"], "field_mode": case["field_mode"],
-            "via_extern_c": case["via"], "events": case["events"]}
+            "via_extern_c": case["via"], "clear_inside": bool(case.get("clear_inside")), "events": case["events"]}
 
 
 # ================================================================================================ shrinking
@@ -797,8 +813,8 @@ ASSUMPTIONS = [
     "ints become floats (complex) when a float (complex) arrived at the same type position, None is transparent, "
     "records of one name at one position share their fields in first-appearance order with absent fields None",
     "type knowledge is taken from everything appended so far, including items of still-open lists/records/tuples",
-    "after a refused (ill-nested) call the builder state is unspecified: only immutability of older snapshots and "
-    "survival of the process are still checked",
+    "after a refused (ill-nested) call, and after clear() while a list, record or tuple is open, the builder state is "
+    "unspecified: only immutability of older snapshots and survival of the process are still checked",
     "in histories containing clear(), numbers compare numerically and records may carry extra all-None fields "
     "(the property does not say whether type knowledge survives clear)",
     "append/extend sources are snapshots taken earlier in the run whose element type is record-free; the *_fast "
